@@ -109,7 +109,7 @@ func genTimeOps(rng *RNG, period, ooo int64, n int, keys []string, farFuture boo
 
 func newTumbling(c twCfg, eventTime bool) (stepWin, error) {
 	cfg := types.WindowConfig{
-		Type: "tumbling", Params: []any{time.Duration(c.size)}, TsProp: "ts", TimeUnit: time.Nanosecond,
+		Type: "tumbling", Params: []any{time.Duration(c.size)}, TsProp: "ts", TimeUnit: time.Duration(tsCarrier.unit),
 		MaxOutOfOrderness: time.Duration(c.ooo), AllowedLateness: time.Duration(c.late),
 	}
 	if eventTime {
@@ -164,11 +164,26 @@ func runC01(tier string, seed uint64, o *Out) error {
 		c.ooo = []int64{0, size / 2, 3 * size}[rng.Intn(3)]
 		c.late = []int64{0, 0, size, 3 * size}[rng.Intn(4)]
 		n := 5 + rng.Intn(36)
-		ops := genTimeOps(rng, size, c.ooo, n, nil, rng.Intn(4) == 0)
+		unit, farOK := pickTsCarrier(rng)
+		if size >= int64(time.Millisecond) { // keep scaled timestamps far from the int64 limit and from "far future"
+			if unit != 1 {
+				farOK = tsCarrier.kind != 2
+			}
+			unit, tsCarrier.unit = 1, 1
+		}
+		ops := genTimeOps(rng, size, c.ooo, n, nil, farOK && rng.Intn(4) == 0)
 		if i%25 == 3 {
 			ops = overflowThenQuiet(rng, size, nil)
 		}
-		if err := emit(c, ops, fmt.Sprintf("event size=%d", size)); err != nil {
+		scaleOps(ops, unit)
+		c = twCfg{c.size * unit, c.ooo * unit, c.late * unit}
+		tag := fmt.Sprintf("event size=%d", size)
+		if tsCarrier.kind != 0 || unit != 1 {
+			tag = fmt.Sprintf("event, timestamp carried as kind %d unit %d", tsCarrier.kind, unit)
+		}
+		err := emit(c, ops, tag)
+		resetTsCarrier()
+		if err != nil {
 			return err
 		}
 	}
